@@ -15,13 +15,16 @@
 //
 //	eng <gun> <keepalive> <instances> <refused> <n> {step}*n       gun = http | scenario
 //	     step = <behaviour> <pp>          pp (scenario only, "-" for http) = postprocessor menu code, see engine.go
-//	     -> run=<ok|err|panic|hang|crashed> timely=<0|1> n=<samples> {code:err}* (sorted)
+//	     -> run=<ok|err|panic|hang|crashed> timely=<0|1> hops=<n|runaway> n=<samples> {code:err}* (sorted)
+//	        hops = the largest number of redirects of one chain the target saw followed; runaway = a chain passed 1000 hops
 //	        timely = every request the target left unanswered was abandoned within response-header-timeout (1 s) + 3 s
 //
 //	grpc <instances-later> <ammo> <downat> <answlog>     real grpc/json provider + grpc gun under the real engine against the
 //	     examples/grpc/server target (with reflection) that goes away for good when it has served <downat> Hello calls (-1: never);
 //	     one instance starts at once, <instances-later> more are created by the startup schedule ~0.5 s apart (i.e. while the
 //	     target is already refusing connections);   -> run=<ok|err|panic|hang> n=<samples>
+//
+//	gscn <iters> <answlog> <n> {<call> <payload> <srv> <pp>}*n    grpc/scenario gun, see grpcscn.go
 package main
 
 import (
@@ -247,6 +250,8 @@ func runCase(line string) (out string) {
 		return runEngine(t)
 	case "grpc":
 		return runGrpc(t)
+	case "gscn":
+		return runGscn(t)
 	}
 	return "unknown-case"
 }
